@@ -1,6 +1,7 @@
 import PPLV.Solver.PendingProofsObj
 import PPLV.Solver.PendingProofsErase2
 import PPLV.Solver.PendingProofsFresh
+import PPLV.Solver.PendingProofsE2E4
 
 /-!
 # C06 stage 3 (b)(c)(d) — the LP machinery of `MIP_Problem`, proved on the code-shaped model
@@ -22,8 +23,12 @@ Model: `PPLV/Solver/Pending.lean` (`PPLV.Solver.Pend`), a transliteration of `pa
        `pricing_choice_irrelevant`, `pricing_same_answer`
                                         every pricing rule that picks a candidate column gives correct answers.
 
+* end to end (problem never solved before): `setup_hands_canon_to_phase1`, `phase1_decides_feasibility`,
+       `lp_fresh_correct` — status, witness `last_generator` and optimality against `Sat` / `Better`.
+
 Not covered: termination (anti-cycling) — the loops are fuelled and every theorem has the hypothesis that the
-fuel sufficed; (b1) for the incremental case (see the comment at `tableau_setup_solutions`).
+fuel sufficed; (b1) and the chain set-up → first phase for the incremental case (see `tableau_setup_solutions`,
+`status_sound_partial`).
 -/
 namespace C06
 open PPLV.Lin PPLV.Solver PPLV.Solver.Tab PPLV.Solver.Pend
@@ -229,6 +234,88 @@ example : (match ppcSetup exFresh with
     | .done _ => ([], [], 0, 0, 0, [])) =
     ([[-2, 1, 1, -1, -1, 1, 0]], [(0, 0), (1, 0), (2, 3)], 7, 5, 6, [5]) := by decide
 
+/-! ### end to end for a problem never solved before -/
+
+/-- **the set-up hands a canonical feasible tableau to the first phase** (fresh problem, `last_generator` = the
+    origin as `MIP_Problem(dim)` leaves it): tableau + `base` + first-phase cost row are `Canon`;
+    `end_artificials = numCols − 1`; the artificial columns start at `artStart b numCols ≥ 1`; on the solutions the cost
+    row denotes `−Σ artificials`: it is `≤ 0` on non-negative valuations and `0` exactly when every artificial is 0.
+    (Uses the count: artificial columns reserved at :803–:822 = rows not worked out.) -/
+theorem setup_hands_canon_to_phase1 (s : LPState) (hF : Fresh s) (hlg : s.last_generator = ⟨[], 1⟩)
+    (s' : LPState) (b e : Nat) (h : ppcSetup s = .phase1 s' b e) : Phase1Start s' b e :=
+  setup_phase1_canon s hF hlg s' b e h
+
+/-- **the first phase decides feasibility and gives `ArtInv`.**  From such a start, for any pricing rule returning
+    candidates, when the loop terminates with `(ok, t)`: `ok = true` (never "unbounded"); `working_cost[0] ≠ 0` ⇒ the
+    tableau has no non-negative solution with all artificials 0; `working_cost[0] = 0` ⇒ the basic solution of `t` is
+    one, and every artificial still basic is 0 (`ArtInv`, the hypothesis of `erase_artificials_valid`). -/
+theorem phase1_decides_feasibility (ch : Chooser) (hch : ChooserOK ch) (fuel : Nat) (s' : LPState) (b e : Nat)
+    (hP : Phase1Start s' b e) (ok : Bool) (t : Tab) (h : computeSimplexWith ch fuel s'.tab = some (ok, t)) :
+    ok = true ∧ Canon t ∧ t.cost.length = s'.numCols ∧ (∀ y, Sol t.T y ↔ Sol s'.tableau y) ∧
+    (t.cost.get 0 ≠ 0 → ∀ y, ¬ TabSol s'.tableau s'.numCols b y) ∧
+    (t.cost.get 0 = 0 → TabSol s'.tableau s'.numCols b (basicPt t) ∧ (b ≠ 0 → ArtInv b e t)) :=
+  phase1_verdict ch hch fuel s' b e hP ok t h
+
+example : Phase1Start
+    (match ppcSetup exFresh with | .phase1 s' _ _ => s' | .done s' => s') 5 6 := by
+  have h : ppcSetup exFresh = .phase1 (match ppcSetup exFresh with | .phase1 s' _ _ => s' | .done s' => s') 5 6 := by
+    rfl
+  exact setup_phase1_canon exFresh ⟨rfl, rfl, rfl, rfl, rfl, rfl, by decide, by decide⟩ rfl _ 5 6 h
+
+/-- **`compute_generator`**: for a feasible basis and a mapping with non-zero first columns, the point built has a
+    positive divisor, one coordinate per problem variable, and is the projection of the basic solution. -/
+theorem compute_generator_is_basic_solution {T : List Row} {base : List Nat} {n : Nat} (hC : CanonTB T base n)
+    (M : List (Nat × Nat)) (ext : Nat) (hext : 0 < ext) (hM : ∀ i, i < ext → (M.getD (i+1) (0, 0)).1 ≠ 0) :
+    0 < (computeGeneratorPt ext T base M).den ∧
+    (computeGeneratorPt ext T base M).num.length = ext ∧
+    ∀ i, i < ext → (computeGeneratorPt ext T base M).val i = proj M (bsol T base) i :=
+  computeGeneratorPt_spec hC M ext hext hM
+
+/-- **END TO END: the LP answers of the model on a problem never solved before are right** (any pricing rule
+    returning candidates; fuel hypotheses = the two calls terminate).  `s` is built by `MIP_Problem(dim)` and mutators
+    (`Untouched`, `last_generator` the origin), `dim > 0`, constraints and objective inside the space;
+    `P = s.problem` is the reference problem (`Sat P.cs` = `sem` of the rows `ICon.toCons`).
+    (i)  `is_lp_satisfiable()` returns false ⇒ no point satisfies the constraints;
+    (ii) it returns true ⇒ some point does, and after `second_phase()` (which returns at once when the set-up
+         produced no tableau row and `process_pending_constraints` answered by `is_unbounded_obj_function`):
+         the status is OPTIMIZED or UNBOUNDED; `last_generator` has a positive divisor and satisfies every constraint;
+         OPTIMIZED ⇒ no point of the solution set has a better objective value than `last_generator` (in the mode of
+         `P`; the inhomogeneous term of the objective is not in the cost row, `objVal` includes it: the comparison is
+         unaffected); UNBOUNDED ⇒ points with arbitrarily good objective value exist.
+    These are the three clauses of `PPLV.Solver.BB.LPCorrect` (`C06.lp_fresh_implies_LPCorrect` in
+    `Props/C06TabBB.lean`). -/
+theorem lp_fresh_correct (fc : Chooser) (hfc : ChooserOK fc) (f1 f2 : Nat) (s s1 : LPState) (r : Bool)
+    (hU : Untouched s) (hlg : s.last_generator = ⟨[], 1⟩) (hn : 0 < s.external_space_dim)
+    (hl : ∀ c ∈ s.input_cs, c.coeffs.length ≤ s.external_space_dim)
+    (hobj : s.obj.coeffs.length ≤ s.external_space_dim)
+    (h1 : isLpSatisfiable fc f1 s = some (s1, r)) :
+    (r = false → ∀ x, ¬ Sat s.problem.cs x) ∧
+    (r = true → (∃ x, Sat s.problem.cs x) ∧ ∀ s2, secondPhase fc f2 s1 = some s2 →
+      (s2.status = .OPTIMIZED ∨ s2.status = .UNBOUNDED) ∧
+      0 < s2.last_generator.den ∧ Sat s.problem.cs s2.last_generator.val ∧
+      (s2.status = .OPTIMIZED → ∀ x, Sat s.problem.cs x →
+        ¬ Better s.problem (s.problem.objVal x) (s.problem.objVal s2.last_generator.val)) ∧
+      (s2.status = .UNBOUNDED → ∀ M : Rat, ∃ x, Sat s.problem.cs x ∧ Better s.problem (s.problem.objVal x) M)) := by
+  have hsem : ∀ x, Sat s.problem.cs x ↔ csSem s.input_cs x := fun x => (csSem_iff_Sat s.input_cs x).symm
+  obtain ⟨a, b⟩ := Pend.lp_fresh_correct fc hfc f1 f2 s s1 r hU hlg hn hl hobj h1
+  refine ⟨fun hr x hx => a hr x ((hsem x).mp hx), fun hr => ?_⟩
+  obtain ⟨⟨x0, hx0⟩, b2⟩ := b hr
+  refine ⟨⟨x0, (hsem x0).mpr hx0⟩, fun s2 h2 => ?_⟩
+  obtain ⟨w1, w2, w3, w4, w5⟩ := b2 s2 h2
+  exact ⟨w1, w2, (hsem _).mpr w3, fun hopt x hx => w4 hopt x ((hsem x).mp hx),
+    fun hunb M => by obtain ⟨x, x1, x2⟩ := w5 hunb M; exact ⟨x, (hsem x).mpr x1, x2⟩⟩
+
+/-- x ≤ 4, x ≥ 0, maximise x: never solved before -/
+def exNew : LPState :=
+  setPricing (setObjectiveFunction (addConstraint (addConstraint (LPState.new 1) ⟨[-1], 4, false⟩) ⟨[1], 0, false⟩) ⟨[1], 0⟩)
+    .TEXTBOOK
+
+example : Untouched exNew ∧ exNew.last_generator = ⟨[], 1⟩ ∧
+    (isLpSatisfiable textbookChooser 20 exNew).map (fun r => (r.1.status, r.2)) = some (.SATISFIABLE, true) ∧
+    ((isLpSatisfiable textbookChooser 20 exNew).bind fun r => (secondPhase textbookChooser 20 r.1).map
+      fun s2 => (s2.status, s2.last_generator.num, s2.last_generator.den)) = some (.OPTIMIZED, [4], 1) :=
+  ⟨⟨rfl, rfl, rfl, rfl, rfl, rfl, rfl⟩, rfl, by decide, by decide⟩
+
 /-! ### (c) second phase / re-optimisation -/
 
 /-- (c) **`second_phase()` from ANY feasible basis, with ANY pricing rule.**  `s` is SATISFIABLE and holds a
@@ -351,10 +438,12 @@ example : (computeSimplexWith textbookChooser 5 exTab).map (fun r => (r.1, r.2.c
     `status ≠ UNSATISFIABLE`, `second_phase()` keeps it and ends solved.
     `_partial`: the part "solved status ⇒ the basis is feasible" is proved through the simplex phases
     (`pricing_choice_irrelevant` (b), `second_phase_sound`), through `erase_artificials`
-    (`erase_artificials_feasible_basis`) and for the data the mutators keep; what is missing is the link from the
-    set-up to the first phase: that the tableau produced by `ppcSetup` (fresh or incremental) with its first-phase
-    cost row is canonical and feasible (`Canon`), and that a first phase ending with cost value 0 gives `ArtInv`
-    (both need the count "number of artificial columns = number of rows not worked out"). -/
+    (`erase_artificials_feasible_basis`), for the data the mutators keep, and — for a problem never solved before —
+    through the set-up (`setup_hands_canon_to_phase1`: the tableau with its first-phase cost row is `Canon`, using the
+    count "number of artificial columns = number of rows not worked out") and the end of the first phase
+    (`phase1_decides_feasibility`: cost value 0 gives `ArtInv`); `lp_fresh_correct` chains them to the final answers.  What is
+    still missing is only the same link for an INCREMENTAL call of `process_pending_constraints` (re-merged
+    variables, old rows, rows combined against the base). -/
 theorem status_sound_partial (s : LPState) (h : StatusInv s) (c : ICon) (e : LinExpr) (b : Bool) (m : Nat) (p : Pricing) :
     StatusInv (LPState.new m) ∧
     (StatusInv (addConstraint s c) ∧ StatusInv (setObjectiveFunction s e) ∧ StatusInv (setOptimizationMode s b) ∧
